@@ -121,7 +121,7 @@ theorem reconcile_local (cfg : Cfg) (rm : Remotes) (name : String) (s : Sys) (me
       setFinalizer_noop s mem true hok.fin, revisionStep_noop s mem hok.rev]
     simp
   have hr1 : w1.remoteRefs = [] := hk.2.2.trans hq.refs
-  rw [hrec, activePhases_ok cfg rm s mem w1 co failing hok.noDup he hr1]
+  rw [hrec, activePhases_ok cfg rm s mem w1 co failing hok.noDup hok.phases.localOnly he hr1]
   simp only [finish]
   have hfm : finishMem { w1 with remoteRefs := [] } (deriveStatus mem co failing) =
       finishMem s.w (deriveStatus mem co failing) := finishMem_congr _ _ _ hk.2.1
@@ -567,9 +567,9 @@ proof of anything general): the pass over the fresh, ready ObjectSet writes exac
 `exSet` carries; the pass over the drifted state stops at phase "one" (its object is not ready)
 with the drift repaired. -/
 example :
-    ((reconcile exCfg ⟨fun _ _ w => (w, .error .other), fun _ _ w => (w, .err)⟩ "os1" (exSys exStore exFresh)).1.sets "os1").map
+    ((reconcile exCfg ⟨fun _ _ w => (w, .error .other), fun _ _ w => (w, .err), fun _ _ w => w⟩ "os1" (exSys exStore exFresh)).1.sets "os1").map
         (fun o => (o.conds, o.controllerOf)) = some (exSet.conds, exSet.controllerOf) ∧
-    (let s1 := (reconcile exCfg ⟨fun _ _ w => (w, .error .other), fun _ _ w => (w, .err)⟩ "os1" (exSys exDriftStore exFresh)).1
+    (let s1 := (reconcile exCfg ⟨fun _ _ w => (w, .error .other), fun _ _ w => (w, .err), fun _ _ w => w⟩ "os1" (exSys exDriftStore exFresh)).1
      (s1.w.store.get (keyOf exCfg exSet.owner exP)).map (fun o => (o.payload, o.rev, o.cacheLabel)) = some ("x", .num 3, true) ∧
      s1.w.store.get (keyOf exCfg exSet.owner exQ) = none ∧
      (s1.sets "os1").map (fun o => findCond o.conds "Available") =
